@@ -39,7 +39,6 @@ use dmntk_feel::values::{Value, Values, VALUE_FALSE, VALUE_TRUE};
 use dmntk_feel::{value_null, FeelDate, FeelDateTime, FeelDaysAndTimeDuration, FeelNumber, FeelTime, FeelYearsAndMonthsDuration, Name, Scope, ToFeelString};
 use regex::Regex;
 use std::borrow::Borrow;
-use std::cmp::Ordering;
 use std::convert::TryFrom;
 
 /// Builds null value with invalid argument type message.
@@ -870,28 +869,42 @@ pub fn reverse(list: &Value) -> Value {
   }
 }
 
+/// Stable merge sort by a `precedes` relation, which is given by the user and need not be
+/// a total order (the sort of the standard library may panic when it is not).
+fn merge_sort(mut items: Vec<Value>, precedes: &dyn Fn(&Value, &Value) -> bool) -> Vec<Value> {
+  if items.len() < 2 {
+    return items;
+  }
+  let right = merge_sort(items.split_off(items.len() / 2), precedes);
+  let left = merge_sort(items, precedes);
+  let mut merged = Vec::with_capacity(left.len() + right.len());
+  let (mut left, mut right) = (left.into_iter().peekable(), right.into_iter().peekable());
+  while let (Some(l), Some(r)) = (left.peek(), right.peek()) {
+    // an item from the right half goes first only when it precedes the item from the left half
+    if precedes(r, l) {
+      merged.extend(right.next());
+    } else {
+      merged.extend(left.next());
+    }
+  }
+  merged.extend(left);
+  merged.extend(right);
+  merged
+}
+
 ///
 pub fn sort(list: &Value, ordering_function: &Value) -> Value {
   if let Value::List(items) = list.clone() {
     if let Value::FunctionDefinition(parameters, body, _) = ordering_function {
       if parameters.len() == 2 {
-        let mut elements = items.as_vec().clone();
-        elements.sort_by(|x, y| {
+        let precedes = |x: &Value, y: &Value| {
           let mut ctx = FeelContext::default();
           ctx.set_entry(&parameters[0].0, x.clone());
           ctx.set_entry(&parameters[1].0, y.clone());
           let scope: Scope = ctx.into();
-          if let Value::Boolean(result) = body.evaluate(&scope) {
-            if result {
-              Ordering::Less
-            } else {
-              Ordering::Equal
-            }
-          } else {
-            Ordering::Equal
-          }
-        });
-        Value::List(Values::new(elements))
+          matches!(body.evaluate(&scope), Value::Boolean(true))
+        };
+        Value::List(Values::new(merge_sort(items.as_vec().clone(), &precedes)))
       } else {
         value_null!("sort: ordering function should take exactly two arguments")
       }
